@@ -210,14 +210,108 @@ def falsifier(ctx, n: int) -> None:
                  {"kind": "empty-length"})
 
 
+def shared_case(r: dict):
+    """the same element object (a drift used after every magnet) and the same sub-segment object (a repeated cell) occur
+    several times in one lattice — the ordinary way a FODO channel is written.  Every occurrence counts: `flattened()`
+    lists them all in order, the length is the sum over occurrences, tracking equals element-by-element tracking of the
+    expansion"""
+    t = lambda v: torch.tensor(v, dtype=torch.float64)  # noqa: E731
+    P, En = np.array(r["particles"], dtype=float), r["energy"]
+    d = cheetah.Drift(length=t(r["Ld"]), name="d", dtype=torch.float64)
+    qf = cheetah.Quadrupole(length=t(0.2), k1=t(r["k1"]), name="qf", dtype=torch.float64)
+    qd = cheetah.Quadrupole(length=t(0.2), k1=t(-r["k1"]), name="qd", dtype=torch.float64)
+    cell = cheetah.Segment([qf, d, qd, d], name="cell")
+    mid = {"bpm": lambda: cheetah.BPM(is_active=True, name="m"), "marker": lambda: cheetah.Marker(name="m"),
+           "cavity": lambda: cheetah.Cavity(length=t(0.3), voltage=t(3e6), phase=t(10.0), frequency=t(1.3e9), name="m", dtype=torch.float64)}[r["mid"]]()
+    top = {"cells": [cell, mid, cell, cell], "shared-drift": [cheetah.Segment([qf, d], name="a"), mid, cheetah.Segment([qd, d], name="b"), d],
+           "flat": [qf, d, mid, qd, d, qf, d]}[r["layout"]]
+    seg = cheetah.Segment(top, name="line")
+
+    def expand(e):
+        return [x for c in e.elements for x in expand(c)] if isinstance(e, cheetah.Segment) else [e]
+    want = expand(seg)
+    flat = seg.flattened().elements
+    if [e.name for e in flat] != [e.name for e in want] or any(a is not b for a, b in zip(flat, want)):
+        return "flattened", f"flattened() lists {[e.name for e in flat]}, the lattice expands to {[e.name for e in want]}"
+    Ls = sum(float(e.length) for e in want)
+    for nm, L in (("length", seg.length), ("flattened().length", seg.flattened().length)):
+        if not abs(float(L) - Ls) <= 1e-12 * max(Ls, 1.0):
+            return "length", f"{nm} = {float(L)!r}, the occurrences add up to {Ls!r}"
+    for bt in ("ParticleBeam", "ParameterBeam"):
+        mk = (lambda: LT.particle_beam(P, En)) if bt == "ParticleBeam" else (lambda: LT.parameter_beam_from(P, En))
+        ref = mk()
+        for e in want:
+            ref = e.track(ref)
+        for nm, s2 in (("Segment.track", seg), ("flattened().track", seg.flattened())):
+            d2 = LT.beams_differ(s2.track(mk()), ref, rtol=1e-10)
+            if d2 is not None:
+                return "track", f"{nm} ({bt}) differs from element-by-element tracking of the expansion: {d2}"
+    return None
+
+
+def shared_probe(ctx, n: int) -> None:
+    rep, rng = ctx.report, ctx.rng
+    layouts, mids = ["cells", "shared-drift", "flat"], ["bpm", "marker", "cavity"]
+    for i in range(n):
+        r = {"kind": "shared", "layout": layouts[i % 3], "mid": mids[(i // 3) % 3], "Ld": float(E.pick(rng, 0.3, 0.5, 1.1)),
+             "k1": float(E.pick(rng, 1.5, 3.0, 6.0)), "energy": float(E.energy(rng)), "particles": LT.gen_particles(rng, 6).tolist()}
+        rep.fals_cases += 1
+        rep.count("shared-objects:" + r["layout"])
+        rep.case(("shared", r["layout"], r["mid"]), None)
+        f = shared_case(r)
+        if f is not None:
+            rep.fail("falsifier", f"C01|Segment|element objects used several times ({r['layout']})|{f[0]}",
+                     f"lattice with repeated element objects ({r['layout']}, {r['mid']} in the middle): {f[1]}", r)
+
+
+def vector_length_case(r: dict):
+    """vectorised element lengths: the segment's length is the broadcast sum of the element lengths, entry by entry (also
+    nested and flattened), and has the vector shape of the tracked beam"""
+    t = lambda v: torch.tensor(v, dtype=torch.float64)  # noqa: E731
+    els = [cheetah.Drift(length=t(L), name=f"d{i}", dtype=torch.float64) for i, L in enumerate(r["lengths"])]
+    q = cheetah.Quadrupole(length=t(0.2), k1=t(2.0), name="q", dtype=torch.float64)
+    inner = cheetah.Segment(els[1:] + [q], name="inner")
+    seg = cheetah.Segment([els[0], inner] if r["nested"] else els + [q], name="line")
+    want = sum(np.asarray(L, dtype=float) for L in r["lengths"]) + 0.2
+    for nm, L in (("length", seg.length), ("flattened().length", seg.flattened().length)):
+        got = L.detach().numpy()
+        if got.shape != np.shape(want) or not np.all(np.abs(got - want) <= 1e-12 * np.maximum(np.abs(want), 1.0)):
+            return f"{nm} = {got.tolist()} (shape {got.shape}), the element lengths add up to {np.asarray(want).tolist()}"
+    out = seg.track(LT.parameter_beam_from(np.array(r["particles"], dtype=float), r["energy"]))
+    if tuple(out._mu.shape[:-1]) != np.shape(want):
+        return f"tracked beam has vector shape {tuple(out._mu.shape[:-1])}, length {np.shape(want)}"
+    return None
+
+
+def vector_length_probe(ctx, n: int) -> None:
+    rep, rng = ctx.report, ctx.rng
+    for i in range(n):
+        B = 2 + i % 2
+        lengths = [rng.uniform(0.2, 2.0, size=B).tolist() if (j == i % 3 or rng.random() < 0.3) else float(rng.uniform(0.2, 2.0)) for j in range(3)]
+        r = {"kind": "vector_length", "lengths": lengths, "nested": bool(i % 2), "energy": float(E.energy(rng)),
+             "particles": LT.gen_particles(rng, 5).tolist()}
+        rep.fals_cases += 1
+        rep.count("vector-length")
+        rep.case(("vector_length", B, r["nested"]), None)
+        f = vector_length_case(r)
+        if f is not None:
+            rep.fail("falsifier", "C01|Segment.length|vectorised element lengths", f"segment of drifts with lengths {lengths}: {f}", r)
+
+
 def run(ctx) -> None:
     stub_correspondence(ctx, ctx.n(60, 1500))
     contract_check(ctx, ctx.n(6, 120))
+    shared_probe(ctx, ctx.n(9, 90))
+    vector_length_probe(ctx, ctx.n(6, 60))
     falsifier(ctx, ctx.n(25, 600))
 
 
 def replay(ctx, data) -> bool:
     r = data["replay"]
+    if r.get("kind") == "shared":
+        return shared_case(r) is not None
+    if r.get("kind") == "vector_length":
+        return vector_length_case(r) is not None
     if r.get("kind") == "lattice":
         P = np.array(r["particles"])
         return seg_vs_fold(r["records"], P, r["energy"], r["beam"], r["variant"]) is not None
